@@ -584,7 +584,7 @@ func report(prop, tier string, seed int, results []*harnessResult, start time.Ti
 			"sched_points": st.SchedPoints, "max_decisions": st.MaxDecisions,
 			"bounds": r.h.opts,
 		})
-		fmt.Printf("  %-40s paths=%-6d instrs=%-9d obl=%-6d viol=%d ifconv=%d sched=%d wall=%.1fs\n", r.h.name, st.Paths, st.Instrs, st.Obligations, len(r.ex.Violations), st.IfConverted, st.SchedPoints, r.wall)
+		fmt.Printf("  %-40s paths=%-6d instrs=%-9d obl=%-6d viol=%d ifconv=%d sched=%d wall=%.1fs z3=%d/%.1fs cvc5=%d/%.1fs\n", r.h.name, st.Paths, st.Instrs, st.Obligations, len(r.ex.Violations), st.IfConverted, st.SchedPoints, r.wall, st.SolverQueries["z3"], st.SolverTime["z3"], st.SolverQueries["cvc5"], st.SolverTime["cvc5"])
 		if os.Getenv("VERIF_PROFILE") != "" {
 			type kv struct {
 				k string
